@@ -228,3 +228,20 @@ func vh_emit_ipv6() {
 	vassert(vhSame(h[8:24], []byte(vhLocal)) && vhSame(h[24:40], []byte(vhRemote)), "source = the route's local address, destination = its remote address")
 	vreach("ipv6")
 }
+
+// C07: ICMPv6 error messages quoting an arbitrary (possibly truncated) packet
+func vh_icmp6_error() {
+	env := vhNewEnv()
+	extra := vnChoice("quoted", 12) // bytes after the quoted IPv6 header: 0..11
+	n := 8 + 40 + extra
+	if vnBool("truncated") {
+		n = 8 + vnChoice("hdrpart", 40)
+	}
+	b := vnBytes("err", n)
+	b[0] = []byte{1, 2}[vnChoice("type", 2)] // destination unreachable / packet too big
+	if n >= 48 {
+		copy(b[8+8:8+24], []byte(vhLocal)) // the quoted packet was sent by us (otherwise dropped early)
+	}
+	env.e.handleICMP(&env.r, vhPkt(b, vnChoice("split", 2)*48))
+	vreach("icmp6-error")
+}
